@@ -508,7 +508,7 @@ def det_case(draw, atom_names=None, bound_kinds=None, max_atoms=2, int_ok=False,
                                            strict=strict)))
     case = {'front': draw(st.sampled_from(list(fronts))), 'n': n, 'vtypes': ''.join(vtypes), 'bounds': bounds,
             'lin': lin, 'atoms': atoms, 'cones': cone_list, 'obj': obj, 'witness': [float(v) for v in xbar],
-            'decl': draw(st.sampled_from(['one', 'split'])), 'bound_style': draw(st.sampled_from(['array', 'entry', 'rows']))}
+            'decl': draw(st.sampled_from(['one', 'split'])), 'bound_style': draw(st.sampled_from(['array', 'entry', 'rows', 'slice']))}
     if case['front'] == 'dro':      # kldiv() on decisions is rejected (TypeError) by the dro front end
         case['cones'] = [c for c in case['cones'] if c['t'] != 'kldiv']
     return case
@@ -700,6 +700,18 @@ def declare(case, m, x, pieces):
                     handles['cert'].append({'kind': 'lb', 'idx': list(range(start, start + size)), 'h': l, 'c': m.st(var >= l)})
                 if np.any(np.isfinite(h)):
                     handles['cert'].append({'kind': 'ub', 'idx': list(range(start, start + size)), 'h': h, 'c': m.st(var <= h)})
+            elif bs == 'slice' and size > 1:
+                # scalar bounds on index lists in non-ascending order: x[[2,0,1]] >= v, x[::-1] <= w
+                for (arr, kind_) in ((l, 'lb'), (h, 'ub')):
+                    for v in sorted(set(float(t) for t in arr if np.isfinite(t))):
+                        js = [j for j in range(size) if arr[j] == v][::-1]
+                        if len(js) > 2:
+                            js = js[1:] + js[:1]
+                        sel = var[js] if len(js) < size else var[::-1]
+                        if len(js) == size:
+                            js = list(range(size))[::-1]
+                        cobj = m.st(sel >= v) if kind_ == 'lb' else m.st(sel <= v)
+                        handles['cert'].append({'kind': kind_, 'idx': [start + j for j in js], 'h': np.array([v] * len(js)), 'c': cobj})
             else:
                 for j in range(size):
                     if np.isfinite(l[j]):
